@@ -64,7 +64,39 @@ def _rw(write, read, pool=None):
     data = out.getvalue()
     ev["bytes"] = list(data)
     inp = io.BytesIO(data + JUNK)
-    r = _DateTimeZoneReader._ctor(inp, tuple(pool) if pool is not None else None)
+    # a third of the reads go through a stream that hands out at most k bytes per read (a pipe, a socket, an unbuffered file: a
+    # reader must ask again for the rest, and for no more than the rest) - chosen by the bytes, so that runs are reproducible
+    chunk = {0: 1, 1: 3, 2: 7}.get((sum(data) + 3 * len(data)) % 9)
+    if chunk is not None:
+        class _Short(io.RawIOBase):
+            def __init__(self, inner, k):
+                self._inner, self._k = inner, k
+
+            def readable(self):
+                return True
+
+            def read(self, size=-1):
+                return self._inner.read(self._k if size is None or size < 0 else min(size, self._k))
+
+            def readinto(self, b):
+                d = self._inner.read(min(len(b), self._k))
+                b[: len(d)] = d
+                return len(d)
+
+            def tell(self):
+                return self._inner.tell()
+
+            def seek(self, *a):
+                return self._inner.seek(*a)
+
+            def seekable(self):
+                return True
+
+        ev["short_reads"] = chunk
+        stream = _Short(inp, chunk)
+    else:
+        stream = inp
+    r = _DateTimeZoneReader._ctor(stream, tuple(pool) if pool is not None else None)
     try:
         # the reader's one-byte lookahead (has_more_data) must be transparent: asked before half of the reads (chosen by
         # the bytes themselves, so that the run is reproducible), it must neither lose nor duplicate a byte
